@@ -35,6 +35,15 @@ func main() {
 	os.MkdirAll(*out, 0o755)
 	replace := map[string]string{}
 	for _, f := range strings.Fields(*feats) {
+		if strings.HasPrefix(f, "sched=") {
+			// sched=<file>[,<file>...]: scheduling points in these repository files instead of the tx-pool files
+			if !strings.Contains(" "+*feats+" ", " mapiter ") {
+				mapiter(*out, replace)
+			}
+			schedFiles = strings.Split(strings.TrimPrefix(f, "sched="), ",")
+			schedFeature(*repo, *out, replace)
+			continue
+		}
 		switch f {
 		case "mapiter":
 			mapiter(*out, replace)
@@ -55,6 +64,9 @@ func main() {
 		die("%v", err)
 	}
 }
+
+// schedFiles overrides the default file list of the sched feature.
+var schedFiles []string
 
 func goroot() string {
 	o, err := exec.Command("go", "env", "GOROOT").Output()
